@@ -24,5 +24,8 @@ def run(ctx):
         runs.append(sc.SRun("SemiSpace", "gate-trylock", driver="scheddrive", workers=2, mutators=1,
                             extra=["--gate", "trylock"], seed_off=51, timeout=60))
     st = sc.execute(ctx, runs, PREFIXES)
+    first = st.pop("_first_trace", None)
+    if ctx.tier == "thorough" and first and not ctx.violations:
+        sc.binding_demo(ctx, first)
     ctx.cov.update({"driver": st, "rule": sc.RULE, "plans": sc.PLANS})
 
